@@ -92,7 +92,7 @@ pub fn replay_select(lines: &[Value], seed: u64) -> ReplayReport {
             // value-level check with real polynomial pieces too: Poly0(id)
             let pw0 = Piecewise { segments: fe.iter().enumerate().map(|(i, &en)| Segment { end: en, poly: Poly0(i as f64 + 1.0) }).collect() };
             for (k, &xr) in xs.iter().enumerate() {
-                let x = e.at(xr);
+                let x = e.arg(xr);
                 rep.runs += 1;
                 let (id, xb, vok, pan) = observe_direct(&pw, x);
                 let want = sel[k] as u32;
@@ -167,12 +167,12 @@ pub fn replay_evaluator(lines: &[Value], seed: u64) -> ReplayReport {
             let mut ev = PiecewiseEvaluator::new(&pw.segments);
             let mut pan = None;
             for &h in &hist {
-                let o = ev_query(&mut ev, e.at(h));
+                let o = ev_query(&mut ev, e.arg(h));
                 if o.panic.is_some() {
                     pan = o.panic;
                 }
             }
-            let x = e.at(xr);
+            let x = e.arg(xr);
             let o = ev_query(&mut ev, x);
             let (did, _, dok, dpan) = observe_direct(&pw, x);
             let panicked = pan.is_some() || o.panic.is_some();
@@ -184,7 +184,7 @@ pub fn replay_evaluator(lines: &[Value], seed: u64) -> ReplayReport {
                     "expected_piece":sel,"observed_piece":o.seg,"direct_piece":did,"arg_bits_ok":o.arg==x.to_bits(),
                     "panic":o.panic.or(pan)}));
             } else {
-                let want_last = e.at(lastr).to_bits();
+                let want_last = e.arg(lastr).to_bits();
                 let shape_ok = o.state.0 == off
                     && o.state.1 == fe.len() - 1 - off
                     && (o.state.2 == want_last || (lastr == NAN_RANK && f64::from_bits(o.state.2).is_nan()))
@@ -215,6 +215,10 @@ pub fn alphabet(ends: &[f64], with_nan: bool) -> Vec<f64> {
     };
     for &e in ends {
         push(e);
+        if e == 0.0 {
+            // the other zero: numerically the same breakpoint, different bits
+            push(-e);
+        }
         if e.is_finite() {
             push(e.next_up());
             push(e.next_down());
@@ -510,8 +514,8 @@ pub fn replay_evalv(lines: &[Value], seed: u64) -> ReplayReport {
             rep.runs += 1;
             let fe: Vec<f64> = ends.iter().map(|&r| e.at(r)).collect();
             let pw = probe_pw(&fe);
-            let mut xs: Vec<f64> = hist.iter().map(|&r| e.at(r)).collect();
-            xs.push(e.at(xr));
+            let mut xs: Vec<f64> = hist.iter().map(|&r| e.arg(r)).collect();
+            xs.push(e.arg(xr));
             let o = observe_evalv(&pw, &xs);
             let want: Vec<u32> = sels.iter().map(|&s| s as u32).collect();
             let args_ok = o.args.iter().zip(xs.iter()).all(|(&a, &x)| a == x.to_bits());
@@ -673,7 +677,7 @@ pub fn replay_merge(lines: &[Value], seed: u64) -> ReplayReport {
                     contract_ok &= rends.windows(2).all(|w| w[0] <= w[1]);
                     contract_ok &= rends.iter().all(|r| fe.iter().chain(ge.iter()).any(|x| x.to_bits() == r.to_bits()));
                     for xr in (lo - 1)..=(hi + 1) {
-                        let x = e.at(xr);
+                        let x = e.arg(xr);
                         let sf = f.iter().position(|&r| r > xr).map_or(f.len(), |p| p + 1) as u32;
                         let sg = g.iter().position(|&r| r > xr).map_or(g.len(), |p| p + 1) as u32;
                         let sr = ref_select(&rends, x);
